@@ -25,6 +25,8 @@ FINDINGS = {
                        "falls between a waiter's check and its cond.Wait is lost and WaitForActiveVigilsClosed (Destroy's drain) sleeps forever",
     "C17-destroy-holding-own-vigil": "an auto-destroy site calls Destroy() without giving the caller's own vigil back first: the drain waits "
                                      "for the caller itself",
+    "C17-close-never-completes": "Close() can return after closing=1 without cancelling the swamp's context: WaitForGracefulClose (and "
+                                 "every SummonSwamp of that swamp) waits for a close that never completes",
     "C17-wait-never-returns": "HasActiveVigils is true for a zero counter: WaitForActiveVigilsClosed never returns",
 }
 
@@ -36,6 +38,9 @@ def spec_violated(rep):
             return "after `%s` waiter %s is still asleep although the vigil counter is 0 and no CeaseVigil is in flight (%s)" % (op, w[1], line)
         if "unwoken" in line:
             return "`%s`: a broadcast with a zero/positive counter did not wake a sleeping waiter (%s)" % (op, line)
+        if line.startswith("closefail") and ("stuck" in line or "hangs" in line):
+            return ("Close() returned but the close never completes: WaitForGracefulClose got no answer within its budget after the "
+                    "chronicler's final Close() failed (%s)" % line)
         if line.startswith("rpcs") and "vigdead=hang" in line:
             return "a Delete of the last key never returned: the auto-destroy drain waits for the handler's own vigil (%s)" % line
         if line.startswith("rpcs") and ("sys=true" in line or "vig=true" in line):
@@ -51,7 +56,7 @@ def run(ctx):
     K.lean_verdict(ctx)
     corrs = []
     if K.build_hx(ctx) and K.build_drv(ctx):
-        args = ["%s=%s" % (k, facts.get(k, "unknown")) for k in ("decrementUnderCondLock", "checkStrict")]
+        args = ["%s=%s" % (k, facts.get(k, "unknown")) for k in ("decrementUnderCondLock", "checkStrict", "closeCancels")]
         c = K.correspondence(ctx, "C17", args)
         corrs.append(("C17", args, c))
     else:
